@@ -1,6 +1,10 @@
 #!/bin/bash
 # re-run every recorded seeded change against the current /repo and /verif (4 at a time); prints one line per seed
 cd "$(dirname "$0")/.."
+# every seed is another source tree: a private Go build cache, trimmed as we go and removed at the end (the shared one
+# would grow by hundreds of MB per seed)
+export GOCACHE=$(mktemp -d /tmp/reseed-gocache-XXXX)
+trap 'rm -rf "$GOCACHE"' EXIT
 run() {
   d=$1; id=$(basename $d); prop=${id%%-*}
   t=$(mktemp -d /tmp/reseed-XXXX); cp $d/patch.diff $d/README.md $t/ 2>/dev/null; cp $d/demo_test.go.txt $t/demo_test.go
@@ -10,6 +14,7 @@ run() {
   nc=$(python3 -c "import json; print('NEGATIVE-CONTROL ' if json.load(open('$d/meta.json')).get('negative_control') else '')" 2>/dev/null)
   echo "$id $nc$(echo "$out" | python3 -c "import json,sys; s=sys.stdin.read(); r=json.loads(s[s.index('{'):]); print('confirmed', r.get('existing_tests_pass_with_change'), r.get('demo_fails_with_change'), r.get('demo_passes_without_change'), 'detected_by', r['detected_by'], [ ('nfi' if any('no-failing' in l for l in v['lines']) else 'concrete') for v in r['checks'].values() if v['lines']])" 2>&1 | tail -1)"
   rm -rf $t
+  find "$GOCACHE" -type f -mmin +25 -delete 2>/dev/null
 }
 export -f run
 ls -d seeded/*/ | xargs -P 4 -I{} bash -c 'run {}'
